@@ -248,4 +248,112 @@ theorem adv_setEncodings (g : SrvCfg) {H : List Nat} {k : Caps} (a : Adv H k) (e
   have a1 := adv_applyEncs g encs (resetCaps k) [] (adv_reset a') (fun e he => by simp [he])
   exact adv_dropPos (adv_fallbackPreferred a1 k.preferred a'.preferred)
 
+/-! ### the CURRENT list: every SetEncodings message resets the flags -/
+
+/-- what survives the reset block: `enableExtendedClipboard` (never reset) and the encoding in use
+before the message (`lastPreferredEncoding`, used only if the new list names no pixel encoding) -/
+def carry (k : Caps) : List Nat :=
+  (if k.extClip then [rfbEncodingExtendedClipboard] else []) ++ k.preferred.toList
+
+theorem adv_reset_carry (k : Caps) (encs : List Nat) : Adv (encs ++ carry k) (resetCaps k) := by
+  constructor <;> simp [resetCaps, carry]
+  intro h
+  exact Or.inr (Or.inl h)
+
+/-- after a SetEncodings message every flag is justified by THAT message's list, apart from the two
+carried items -/
+theorem adv_setEncodings_current (g : SrvCfg) (k : Caps) (encs : List Nat) :
+    Adv (encs ++ carry k) (setEncodings g k encs).1 := by
+  have a1 := adv_applyEncs g encs (resetCaps k) [] (adv_reset_carry k encs) (fun e he => by simp [he])
+  refine adv_dropPos (adv_fallbackPreferred a1 k.preferred ?_)
+  intro e he
+  right
+  simp [carry, he]
+
+local macro "branch_pref" : tactic => `(tactic|
+  ((try dsimp only); first
+    | rfl
+    | (exfalso; simp_all; done)
+    | (split <;> (try dsimp only) <;> first | rfl | (exfalso; simp_all; done))))
+
+local macro "case_if_pref" c:term : tactic => `(tactic|
+  (by_cases hc : $c
+   · rw [if_pos hc]; try branch_pref
+   rw [if_neg hc]))
+
+/-- a number that is not a pixel encoding never changes the preferred encoding -/
+theorem applyEnc_preferred_unchanged (g : SrvCfg) (k : Caps) (e : Nat)
+    (hnp : isPixelEncoding e = false) : (applyEnc g k e).1.preferred = k.preferred := by
+  unfold applyEnc
+  case_if_pref (e = rfbEncodingCopyRect)
+  case_if_pref (isPixelEncoding e = true)
+  case_if_pref (e = rfbEncodingXCursor)
+  case_if_pref (e = rfbEncodingRichCursor)
+  case_if_pref (e = rfbEncodingPointerPos)
+  case_if_pref (e = rfbEncodingLastRect)
+  case_if_pref (e = rfbEncodingNewFBSize)
+  case_if_pref (e = rfbEncodingExtDesktopSize)
+  case_if_pref (e = rfbEncodingKeyboardLedState)
+  case_if_pref (e = rfbEncodingSupportedMessages)
+  case_if_pref (e = rfbEncodingSupportedEncodings)
+  case_if_pref (e = rfbEncodingServerIdentity)
+  case_if_pref (e = rfbEncodingXvp)
+  case_if_pref (e = rfbEncodingExtendedClipboard)
+  all_goals (try branch_pref)
+
+/-- the preferred encoding is always a pixel encoding -/
+def PrefPixel (k : Caps) : Prop := ∀ p, k.preferred = some p → isPixelEncoding p = true
+
+theorem prefPixel_applyEnc (g : SrvCfg) (k : Caps) (e : Nat) (h : PrefPixel k) :
+    PrefPixel (applyEnc g k e).1 := by
+  intro p hp
+  cases hpx : isPixelEncoding e with
+  | true =>
+    rcases applyEnc_preferred g k e p hp with h' | rfl
+    · exact h p h'
+    · exact hpx
+  | false =>
+    rw [applyEnc_preferred_unchanged g k e hpx] at hp
+    exact h p hp
+
+theorem prefPixel_applyEncs (g : SrvCfg) :
+    ∀ (es : List Nat) (k : Caps) (acc : List Immediate), PrefPixel k → PrefPixel (applyEncs g k es acc).1 := by
+  intro es
+  induction es with
+  | nil => intro k acc h; simpa [applyEncs] using h
+  | cons e t ih => intro k acc h; simp only [applyEncs]; exact ih _ _ (prefPixel_applyEnc g k e h)
+
+theorem prefPixel_setEncodings (g : SrvCfg) (k : Caps) (encs : List Nat) (h : PrefPixel k) :
+    PrefPixel (setEncodings g k encs).1 := by
+  have h0 : PrefPixel (resetCaps k) := by intro p hp; simp [resetCaps] at hp
+  have h1 := prefPixel_applyEncs g encs (resetCaps k) [] h0
+  unfold setEncodings
+  simp only []
+  generalize (applyEncs g (resetCaps k) encs []).1 = c1 at h1
+  intro p hp
+  unfold dropPosWithoutShape at hp
+  have hp' : (fallbackPreferred k.preferred c1).preferred = some p := by
+    split at hp <;> exact hp
+  unfold fallbackPreferred at hp'
+  split at hp'
+  · exact h1 p hp'
+  · simp only [Option.some.injEq] at hp'
+    cases hk : k.preferred with
+    | none => simp only [hk, Option.getD_none] at hp'; rw [← hp']; decide
+    | some v => simp only [hk, Option.getD_some] at hp'; exact hp' ▸ h v hk
+
+/-- a pseudo-encoding number is not among the carried items -/
+theorem not_mem_carry (k : Caps) (h : PrefPixel k) (e : Nat) (h1 : e ≠ rfbEncodingExtendedClipboard)
+    (h2 : isPixelEncoding e = false) : e ∉ carry k := by
+  unfold carry
+  intro hm
+  simp only [List.mem_append, Option.mem_toList] at hm
+  rcases hm with hm | hm
+  · split at hm
+    · simp only [List.mem_singleton] at hm; exact h1 hm
+    · simp at hm
+  · have := h e hm
+    rw [h2] at this
+    exact Bool.noConfusion this
+
 end VncModel.Wire
